@@ -514,11 +514,12 @@ def spec_c10(c):
     return None
 
 
-VARIANTS_C14 = [dict(threads=1, rooms="list", print=True), dict(threads=3, rooms="file", print=True), dict(threads=1, rooms="list", print=False)]
+VARIANTS_C14 = [dict(threads=1, rooms="list", print=True), dict(threads=3, rooms="file", print=True),
+                dict(threads=1, rooms="list", print=False, stale_out=True)]
 
 
 def c14_cli(ctx, cases):
-    count = 70 if ctx.tier == "quick" else 500
+    count = 260 if ctx.tier == "quick" else 1500
     metas, recs = cli_records(ctx, ctx.seed + 6, count, VARIANTS_C14)
     viol = []
     stats = Counter()
